@@ -5,12 +5,15 @@ Pipeline (DESIGN.md sections 2, 5.3, 6):
 1. TLC model-checks spec/ModLoad.tla (B, the loader transcribed) against the ordering
    contract spec/ModLoadContract.tla (A) for every case of the tier's enumeration
    (a case = dependency graph + order of the module_depends() calls + listing + at most one
-   module without a shared object) and prints every case together with the event log B
-   predicts.  Random cases on 4-6 modules are drawn here (ctx.rng), handed to the same
+   module without a shared object + hook profile: which modules lack the optional entry points
+   module_post_init / module_destructor) and prints every case together with the event log B
+   predicts.  Random cases on 4-6 modules, and hook profiles for a sample of the enumerated
+   cases whose profiles TLC does not enumerate, are drawn here (ctx.rng), handed to the same
    specification through a case file, and model-checked the same way.
-2. Every case is rendered into a dependency file for the stub modules (harness/stubmod.c,
-   copied to m1.so .. m6.so), a library directory and a configuration, and the REAL daemon is
-   started once per case.  The stubs' event log and the exit status are collected.
+2. Every case is rendered into a dependency file for the stub modules (harness/stubmod.c in
+   four variants: all hooks / no post-init / no destructor / neither; one copy per module name
+   and variant), a library directory and a configuration, and the REAL daemon is started once
+   per case.  The stubs' event log and the exit status are collected.
 3. TLC validates every real log against the contract (spec/ModLoadTrace.tla).  This is the
    only source of VIOLATION.  A rejected case is re-run on a fresh process and judged again
    before it is reported.
@@ -46,21 +49,81 @@ INVARIANT_TO_CONJUNCT = lambda name: name.rstrip("_")
 # cases
 # ----------------------------------------------------------------------------------------
 
+CASE_FIELDS = ("n", "deps", "list", "missing", "nopost", "nodtor")
+
+
 def case_key(c):
+    return json.dumps([c["n"], c["deps"], c["list"], c["missing"], c["nopost"], c["nodtor"]], separators=(",", ":"))
+
+
+def graph_key(c):
     return json.dumps([c["n"], c["deps"], c["list"], c["missing"]], separators=(",", ":"))
 
 
 def case_size(c):
-    return (c["n"], sum(len(d) for d in c["deps"]), len(c["list"]), len(c["missing"]), case_key(c))
+    return (c["n"], sum(len(d) for d in c["deps"]), len(c["list"]), len(c["missing"]),
+            len(c["nopost"]) + len(c["nodtor"]), case_key(c))
 
 
 def signature(c):
     deps = " ".join("m%d:%s" % (i + 1, ",".join("m%d" % d for d in ds)) for i, ds in enumerate(c["deps"]))
-    return "%s | modules (%s) | no .so: %s" % (deps, ", ".join("m%d" % m for m in c["list"]),
-                                              ",".join("m%d" % m for m in c["missing"]) or "-")
+    sig = "%s | modules (%s) | no .so: %s" % (deps, ", ".join("m%d" % m for m in c["list"]),
+                                             ",".join("m%d" % m for m in c["missing"]) or "-")
+    if c.get("nopost"):
+        sig += " | no post-init: " + ",".join("m%d" % m for m in c["nopost"])
+    if c.get("nodtor"):
+        sig += " | no destructor: " + ",".join("m%d" % m for m in c["nodtor"])
+    return sig
 
 
-def canon(n, deps, lst, missing):
+def with_defaults(c):
+    """Replay bodies written before hook profiles existed: every module has every hook."""
+    c = dict(c)
+    c.setdefault("nopost", [])
+    c.setdefault("nodtor", [])
+    return c
+
+
+def draw_profile(rng, n, missing, force=False):
+    """Hook profile drawn at random: per case one probability for 'lacks module_post_init' and one
+    for 'lacks module_destructor' (most stock modules lack one or both).  force: not the full profile."""
+    have = [m for m in range(1, n + 1) if m not in missing]
+    while True:
+        qp, qd = rng.choice([0.0, 0.3, 0.6, 0.9]), rng.choice([0.0, 0.3, 0.6, 0.9])
+        nopost = [m for m in have if rng.random() < qp]
+        nodtor = [m for m in have if rng.random() < qd]
+        if nopost or nodtor or not force or not have:
+            return nopost, nodtor
+
+
+def reach(deps, m):
+    out, st = set(), [m]
+    while st:
+        x = st.pop()
+        for y in deps[x - 1]:
+            if y not in out:
+                out.add(y)
+                st.append(y)
+    return out
+
+
+def shape_counts(c):
+    """Coverage counters only (syntactic): which absent-hook shapes does the case contain?"""
+    n, deps = c["n"], c["deps"]
+
+    def paths(a, b, depth=0):          # number of distinct dependency paths a -> b (acyclic graphs only)
+        return 1 if a == b else sum(paths(y, b, depth + 1) for y in deps[a - 1])
+    two_nopost = any(paths(a, b) >= 2 for b in c["nopost"] for a in range(1, n + 1) if a != b)
+    nodtor_with_deps = any(deps[m - 1] for m in c["nodtor"])
+    through = lambda hookless: any(y in hookless and z not in deps[x - 1] and z not in hookless and x not in hookless
+                                   for x in range(1, n + 1) for y in deps[x - 1] for z in deps[y - 1])
+    return {"two_paths_to_module_without_post_init": two_nopost,
+            "module_without_destructor_has_dependencies": nodtor_with_deps,
+            "post_init_order_only_through_hookless_module": through(c["nopost"]),
+            "destructor_order_only_through_hookless_module": through(c["nodtor"])}
+
+
+def canon(n, deps, lst, missing, nopost=(), nodtor=()):
     """Restrict a drawn case to the modules the loader can ever touch (named in the list or pulled
     in by module_depends()) and rename them order-preservingly to 1..k.  Purely syntactic."""
     seen, stack = set(lst), list(lst)
@@ -76,7 +139,9 @@ def canon(n, deps, lst, missing):
     ren = {m: i + 1 for i, m in enumerate(order)}
     nd = [[ren[y] for y in (deps[m - 1] if m not in missing else [])] for m in order]
     return {"n": len(order), "deps": nd, "list": [ren[m] for m in lst],
-            "missing": sorted(ren[m] for m in missing if m in ren)}
+            "missing": sorted(ren[m] for m in missing if m in ren),
+            "nopost": sorted(ren[m] for m in nopost if m in ren and m not in missing),
+            "nodtor": sorted(ren[m] for m in nodtor if m in ren and m not in missing)}
 
 
 def random_case(rng, n, style):
@@ -106,11 +171,28 @@ def random_case(rng, n, style):
         leaves = [m for m in range(1, n + 1) if not deps[m - 1]]
         if leaves:
             missing = [rng.choice(leaves)]
-    return canon(n, deps, lst, missing)
+    nopost, nodtor = draw_profile(rng, n, missing)
+    return canon(n, deps, lst, missing, nopost, nodtor)
 
 
-def diamond():
-    return {"n": 4, "deps": [[2, 3], [4], [4], []], "list": [1], "missing": []}
+def diamond(nopost=(), nodtor=()):
+    return {"n": 4, "deps": [[2, 3], [4], [4], []], "list": [1], "missing": [],
+            "nopost": list(nopost), "nodtor": list(nodtor)}
+
+
+def triangle_nopost_bottom():
+    """m1 -> {m2, m3}, m2 -> m3; m3 (reached along two paths in m1's walk) has no module_post_init."""
+    return {"n": 3, "deps": [[2, 3], [3], []], "list": [1], "missing": [], "nopost": [3], "nodtor": []}
+
+
+def chain_nodtor_top():
+    """m3 -> m2 -> m1; m3 has no module_destructor (and the dependencies sort before their dependents)."""
+    return {"n": 3, "deps": [[], [1], [2]], "list": [3], "missing": [], "nopost": [], "nodtor": [3]}
+
+
+def fixed_cases():
+    return [diamond(), diamond(nopost=[4]), diamond(nodtor=[2, 3]), diamond(nopost=[2, 3, 4], nodtor=[1, 2, 3, 4]),
+            triangle_nopost_bottom(), chain_nodtor_top()]
 
 
 # ----------------------------------------------------------------------------------------
@@ -148,40 +230,77 @@ def model_run(ctx, cfg, name, exhaustive, env=None, workers=8, timeout=1500, cov
     return cases
 
 
+MODEL_MUTANTS = [
+    # (Bug switch, cfg, case, conjunct TLC must report, coverage key, text)
+    ("D12", "ModLoad_bugD12file.cfg", diamond, "B_StartsComplete", "model_mutant_D12", "the diamond"),
+    ("NoPostNoMark", "ModLoad_bugNoPostfile.cfg", triangle_nopost_bottom, "B_StartsComplete",
+     "model_mutant_NoPostNoMark", "m1 -> {m2, m3}, m2 -> m3 with m3 lacking module_post_init"),
+    ("NoDtorNoUnlink", "ModLoad_bugNoDtorfile.cfg", chain_nodtor_top, "B_DtorBeforeDeps",
+     "model_mutant_NoDtorNoUnlink", "m3 -> m2 -> m1 with m3 lacking module_destructor"),
+]
+
+
 def model_mutant_must_fail(ctx):
-    """Anti-vacuity of the model side: the loader as it was before commit 47cba46 (Bug = "D12")
-    must fail B_StartsComplete on the diamond."""
-    p = os.path.join(ctx.scratch, "diamond.ndjson")
-    with open(p, "w") as f:
-        f.write(json.dumps(diamond()) + "\n")
-    r = _tlc.run("ModLoad", "ModLoad_bugD12file.cfg", workers=1, timeout=300, deadlock=True, env={"CASES": p})
-    if r.violated != "B_StartsComplete":
-        raise core.MachineryError("model mutant Bug=D12 on the diamond: expected B_StartsComplete, TLC says %r"
-                                  % r.violated)
-    ctx.cov["model_mutant_D12"] = "B_StartsComplete violated on the diamond, as required"
+    """Anti-vacuity of the model side: with a Bug switch on -- module_dfs() as before commit 47cba46
+    ("D12"); module_dfs() returning early, without the visited mark, for a module without
+    module_post_init ("NoPostNoMark"); module_cleanup() unlinking from the dependencies' rdepends only
+    when a destructor was found ("NoDtorNoUnlink") -- TLC must report the expected conjunct on the
+    smallest case that shows the difference (the same cases pass with Bug = "none": they are
+    part of the drawn cases below)."""
+    import concurrent.futures
+
+    def one(mm):
+        bug, cfg, mk, expect, key, text = mm
+        p = os.path.join(ctx.scratch, "mm-%s.ndjson" % bug)
+        with open(p, "w") as f:
+            f.write(json.dumps(mk()) + "\n")
+        r = _tlc.run("ModLoad", cfg, workers=1, timeout=300, deadlock=True, env={"CASES": p})
+        return mm, r.violated
+    with concurrent.futures.ThreadPoolExecutor(max_workers=3) as ex:
+        for (bug, cfg, mk, expect, key, text), got in ex.map(one, MODEL_MUTANTS):
+            if got != expect:
+                raise core.MachineryError("model mutant Bug=%s on %s: expected %s, TLC says %r" % (bug, text, expect, got))
+            ctx.cov[key] = "%s violated on %s, as required" % (expect, text)
 
 
 # ----------------------------------------------------------------------------------------
 # real side
 # ----------------------------------------------------------------------------------------
 
+VARIANTS = ("all", "nopost", "nodtor", "neither")
+
+
+def variant_of(c, m):
+    return VARIANTS[(1 if m in c["nopost"] else 0) + (2 if m in c["nodtor"] else 0)]
+
+
 def prepare_libs(ctx):
-    """lib-0: m1.so .. m6.so (copies, not links); lib-k: the same without m<k>.so."""
-    stub = ctx.build.stubmod()
+    """pool/m<k>.<variant>.so for k = 1..6 and the four stub variants: copies, not links, so that
+    every module name has its own inode, statics and dlopen handle whatever its variant.  A case's
+    library directory (made by render) links m<k>.so to the variant its hook profile asks for and
+    has no entry for a module without a shared object."""
     root = os.path.join(ctx.scratch, "libs")
-    for k in range(0, MAXMODS + 1):
-        d = os.path.join(root, "lib-%d" % k)
-        os.makedirs(d, exist_ok=True)
+    pool = os.path.join(root, "pool")
+    os.makedirs(pool, exist_ok=True)
+    for v in VARIANTS:
+        stub = ctx.build.stubmod(v)
         for m in range(1, MAXMODS + 1):
-            if m != k:
-                shutil.copyfile(stub, os.path.join(d, "m%d.so" % m))
+            shutil.copyfile(stub, os.path.join(pool, "m%d.%s.so" % (m, v)))
     return root
 
 
-def render(c, libroot, wdir):
-    if len(c["missing"]) > 1 or c["n"] > MAXMODS:
+def render(c, libroot, wdir, lib_text=None):
+    """deps file, configuration and (unless lib_text is given: replay text only) the library directory."""
+    if len(c["missing"]) > 1 or c["n"] > MAXMODS or set(c["missing"]) & (set(c["nopost"]) | set(c["nodtor"])):
         raise core.MachineryError("case outside the renderable space: %r" % (c,))
-    lib = os.path.join(libroot, "lib-%d" % (c["missing"][0] if c["missing"] else 0))
+    lib = lib_text or os.path.join(wdir, "lib")
+    if lib_text is None:
+        shutil.rmtree(lib, ignore_errors=True)
+        os.makedirs(lib)
+        for m in range(1, c["n"] + 1):
+            if m not in c["missing"]:
+                os.symlink(os.path.join(libroot, "pool", "m%d.%s.so" % (m, variant_of(c, m))),
+                           os.path.join(lib, "m%d.so" % m))
     deps = "".join("m%d:%s\n" % (i + 1, "".join(" m%d" % d for d in ds)) for i, ds in enumerate(c["deps"]))
     conf = "core {\n  library_path ( \"%s\" )\n  modules ( %s )\n}\n" % (lib, ", ".join("m%d" % m for m in c["list"]))
     with open(os.path.join(wdir, "deps"), "w") as f:
@@ -255,6 +374,7 @@ def run_one(daemon, libroot, wdir, c, grace):
         except OSError:
             pass
     line = {"n": c["n"], "deps": c["deps"], "list": c["list"], "missing": c["missing"],
+            "nopost": c["nopost"], "nodtor": c["nodtor"],
             "log": log, "events": nlines, "status": status}
     return line, external_at is not None, err
 
@@ -362,9 +482,54 @@ def validate(ctx, lines, tag, max_findings=4):
     return findings[:max_findings * 2], judged
 
 
-def must_reject(ctx, good_line):
-    """Anti-vacuity of the oracle: a corrupted copy of a real, accepted log must be rejected."""
+def _swap_events(line, kind, x, z):
     import copy
+    ln = copy.deepcopy(line)
+    ix, iz = ln["log"].index([kind, x]), ln["log"].index([kind, z])
+    ln["log"][ix], ln["log"][iz] = ln["log"][iz], ln["log"][ix]
+    return ln
+
+
+def _through_hookless(line, kind, hookless):
+    """(x, y, z): x -> y -> z in the dependency graph, y lacks the hook, x and z have it and logged it,
+    and z is no direct dependency of x.  Syntactic search for a log to corrupt; TLC judges the copy."""
+    have = {e[1] for e in line["log"] if e[0] == kind}
+    for x in range(1, line["n"] + 1):
+        for y in line["deps"][x - 1]:
+            for z in line["deps"][y - 1]:
+                if y in hookless and x in have and z in have and z not in line["deps"][x - 1]:
+                    return x, y, z
+    return None
+
+
+def must_reject(ctx, lines):
+    """Anti-vacuity of the oracle: corrupted copies of real, accepted logs must be rejected, each for
+    the stated reason.  Choosing WHICH log to corrupt is not a judgement: TLC decides whether the
+    corrupted copies are rejected."""
+    import copy
+    import concurrent.futures
+    good_line = thr_dtor = thr_post = has_nodtor = None
+    for l in lines:
+        if l["status"] != 0:
+            continue
+        pis = [e[1] for e in l["log"] if e[0] == "post-init"]
+        if good_line is None and not l["nopost"] and not l["nodtor"] and len(pis) >= 3 \
+                and pis[0] in reach(l["deps"], pis[-1]):      # swapping first and last post-init must break the order
+            good_line = l
+        if thr_dtor is None and _through_hookless(l, "dtor", l["nodtor"]):
+            thr_dtor = l
+        if thr_post is None and _through_hookless(l, "post-init", l["nopost"]):
+            thr_post = l
+        if has_nodtor is None and l["nodtor"] and len(l["nodtor"]) < l["n"]:
+            has_nodtor = l
+        if good_line and thr_dtor and thr_post and has_nodtor:
+            break
+    for what, v in (("whose last post-init depends on its first (all hooks)", good_line),
+                    ("with destructor order through a module without destructor", thr_dtor),
+                    ("with post-init order through a module without post-init", thr_post),
+                    ("with some but not all modules lacking a destructor", has_nodtor)):
+        if v is None:
+            raise core.MachineryError("no accepted real log " + what)
     tests = []
     a = copy.deepcopy(good_line)          # one destructor line deleted
     idx = max(i for i, e in enumerate(a["log"]) if e[0] == "dtor")
@@ -381,18 +546,36 @@ def must_reject(ctx, good_line):
     d = copy.deepcopy(good_line)          # transport damage
     d["events"] += 1
     tests.append(("line count wrong", d, "deadlock"))
-    for what, ln, expect in tests:
-        p = os.path.join(ctx.scratch, "corrupt.ndjson")
-        with open(p, "w") as f:
-            f.write(json.dumps(ln) + "\n")
+    # the hook profile of the record is what the contract is applied with
+    x, y, z = _through_hookless(thr_dtor, "dtor", thr_dtor["nodtor"])
+    tests.append(("dtor(m%d) and dtor(m%d) swapped, m%d -> m%d -> m%d with m%d lacking a destructor" % (x, z, x, y, z, y),
+                  _swap_events(thr_dtor, "dtor", x, z), "A_DtorBeforeDeps"))
+    x, y, z = _through_hookless(thr_post, "post-init", thr_post["nopost"])
+    tests.append(("post-init(m%d) and post-init(m%d) swapped, m%d -> m%d -> m%d with m%d lacking a post-init" % (x, z, x, y, z, y),
+                  _swap_events(thr_post, "post-init", x, z), "A_PostInitAfterDeps"))
+    e = copy.deepcopy(has_nodtor)         # a module without destructor declared to have one
+    e["nodtor"] = e["nodtor"][1:]
+    tests.append(("module without destructor recorded as having one", e, "A_StopsClean"))
+    f = copy.deepcopy(good_line)          # a module that logged a post-init declared to have none
+    f["nopost"] = [[ev for ev in f["log"] if ev[0] == "post-init"][0][1]]
+    tests.append(("module that logged post-init recorded as lacking it", f, "deadlock"))
+
+    def one(arg):
+        i, (what, ln, expect) = arg
+        p = os.path.join(ctx.scratch, "corrupt-%d.ndjson" % i)
+        with open(p, "w") as fh:
+            fh.write(json.dumps(ln) + "\n")
         r = _tlc.run("ModLoadTrace", "ModLoadTrace.cfg", workers=1, timeout=300, deadlock=True,
                      env={"TRACE": p, "START": "1"})
-        got = INVARIANT_TO_CONJUNCT(r.violated) if r.violated else None
-        if got != expect:
-            raise core.MachineryError("oracle self-test: corrupted trace (%s) gave %r, expected %r"
-                                      % (what, got, expect))
-    ctx.cov["oracle_selftest"] = "4 corrupted copies of an accepted real log rejected (%s)" % \
-        ", ".join(t[2] for t in tests)
+        os.unlink(p)
+        return what, expect, (INVARIANT_TO_CONJUNCT(r.violated) if r.violated else None)
+    with concurrent.futures.ThreadPoolExecutor(max_workers=4) as ex:
+        for what, expect, got in ex.map(one, enumerate(tests)):
+            if got != expect:
+                raise core.MachineryError("oracle self-test: corrupted trace (%s) gave %r, expected %r"
+                                          % (what, got, expect))
+    ctx.cov["oracle_selftest"] = "%d corrupted copies of accepted real logs rejected (%s)" % (
+        len(tests), "; ".join("%s: %s" % (t[0], t[2]) for t in tests))
 
 
 # ----------------------------------------------------------------------------------------
@@ -401,7 +584,7 @@ def must_reject(ctx, good_line):
 
 def confirm_and_report(ctx, libroot, line, conjunct, text):
     """Second opinion on a fresh process, judged by TLC again; only then a VIOLATION."""
-    c = {k: line[k] for k in ("n", "deps", "list", "missing")}
+    c = {k: line[k] for k in CASE_FIELDS}
     res = run_real(ctx, [c], libroot)
     line2, _, err = res[0]
     found, _ = validate(ctx, [line2], "confirm")
@@ -409,12 +592,15 @@ def confirm_and_report(ctx, libroot, line, conjunct, text):
         ctx.note("case %s: rejected once (%s) but accepted on a fresh process; not reported" % (signature(c), conjunct))
         return False
     conj2 = found[0][0]
-    deps_txt, conf_txt = render(c, "<libdir>", _tmpdir(ctx))
+    deps_txt, conf_txt = render(c, libroot, _tmpdir(ctx), lib_text="<libdir>")
     ctx.violation(
         what="real daemon on %s: log %s, exit status %s violates %s" % (
             signature(c), " ".join("%s(%s)" % (e, m) if m else e for e, m in line2["log"]), line2["status"], conj2),
         conjunct=conj2, signature=signature(c),
-        replay={"case": c, "deps_file": deps_txt, "conf": conf_txt, "observed_log": line2["log"],
+        replay={"case": c, "deps_file": deps_txt, "conf": conf_txt,
+                "libdir": {"m%d.so" % m: "harness/stubmod.c, variant " + variant_of(c, m)
+                           for m in range(1, c["n"] + 1) if m not in c["missing"]},
+                "observed_log": line2["log"],
                 "observed_status": line2["status"], "stderr_tail": err, "tlc": found[0][2][:800]})
     return True
 
@@ -445,17 +631,50 @@ def run(ctx):
                 ordered.append(c)
 
     if quick:
-        add(model_run(ctx, "ModLoad_quick.cfg", "n<=3", True), "enum n<=3, calls in name order")
+        add(model_run(ctx, "ModLoad_quick.cfg", "n<=3", True),
+            "enum n<=3, calls in name order, paired hook profiles for the good cases")
     else:
         add(model_run(ctx, "ModLoad_orders.cfg", "n<=3-all-call-orders", True, workers=12),
-            "enum n<=3, every call order")
+            "enum n<=3, every call order, every hook profile for the good cases")
+        add(model_run(ctx, "ModLoad_profiles.cfg", "n<=3-all-profiles", True, workers=12),
+            "enum n<=3 without self-dependencies, every hook profile")
         add(model_run(ctx, "ModLoad_thorough.cfg", "n<=4", True, workers=14, timeout=2400, coverage=False),
             "enum n<=4 without self-dependencies")
+    # hook profiles TLC did not enumerate: drawn here for a sample of the enumerated cases that were
+    # emitted with all hooks only (cyclic / unloadable cases on <=3 modules; the 4-module cases)
+    by_graph = {}
+    for c in ordered:
+        by_graph.setdefault(graph_key(c), []).append(c)
+    only_full = [cs[0] for cs in by_graph.values() if len(cs) == 1 and not cs[0]["nopost"] and not cs[0]["nodtor"]
+                 and len(cs[0]["missing"]) < cs[0]["n"]]
+    plain = lambda c: not c["missing"] and all(m + 1 not in ds for m, ds in enumerate(c["deps"]))
+    strata = ([("cyclic without self-dependency, <=3 modules", [c for c in only_full if c["n"] <= 3 and plain(c)], 600),
+               ("other refused cases, <=3 modules", [c for c in only_full if c["n"] <= 3 and not plain(c)], 500)]
+              if quick else
+              [("cyclic or unloadable, <=3 modules", [c for c in only_full if c["n"] <= 3], 5000),
+               ("good, 4 modules", [c for c in only_full if c["n"] == 4 and c["class"] == "good"], 12000),
+               ("cyclic, 4 modules", [c for c in only_full if c["n"] == 4 and c["class"] != "good"], 6000)])
+    drawn, seen = [], set()
+    for c in fixed_cases():
+        if case_key(c) not in predicted and case_key(c) not in seen:
+            seen.add(case_key(c))
+            drawn.append(c)
+    nvariants = {}
+    for what, pool, count in strata:
+        pool = sorted(pool, key=case_key)
+        for c in (rng.sample(pool, count) if len(pool) > count else pool):
+            nopost, nodtor = draw_profile(rng, c["n"], c["missing"], force=True)
+            v = {"n": c["n"], "deps": c["deps"], "list": c["list"], "missing": c["missing"],
+                 "nopost": nopost, "nodtor": nodtor}
+            if case_key(v) not in seen:
+                seen.add(case_key(v))
+                drawn.append(v)
+                nvariants[what] = nvariants.get(what, 0) + 1
+    ctx.cov["drawn_hook_profiles_for_enumerated_cases"] = nvariants
     # drawn cases (same specification, cases through a file)
     plan = ([(3, "any", 250), (4, "dag", 350), (4, "any", 350), (5, "dag", 150), (5, "any", 100),
              (6, "dag", 150), (6, "any", 100)] if quick else
             [(4, "any", 1500), (5, "dag", 600), (5, "any", 400), (6, "dag", 600), (6, "any", 400)])
-    drawn, seen = [diamond()], {case_key(diamond())}
     for n, style, count in plan:
         tries = 0
         got = 0
@@ -472,19 +691,32 @@ def run(ctx):
     with open(cpath, "w") as f:
         for c in drawn:
             f.write(json.dumps(c) + "\n")
-    filecases = model_run(ctx, "ModLoad_file.cfg", "drawn", False, env={"CASES": cpath}, workers=8)
+    filecases = model_run(ctx, "ModLoad_file.cfg", "drawn", False, env={"CASES": cpath}, workers=8, timeout=2400)
     if len(filecases) != len(drawn):
         raise core.MachineryError("model emitted %d of %d drawn cases" % (len(filecases), len(drawn)))
     add(filecases, "drawn with seed %d" % ctx.seed)
     ctx.cov["model_drawn_cases"] = len(drawn)
 
     classes = {}
+    shapes = {"good_cases_with_a_module_lacking_post_init": 0, "good_cases_with_a_module_lacking_destructor": 0,
+              "refused_cases_with_a_module_lacking_a_hook": 0}
     for c in ordered:
         classes[c["class"]] = classes.get(c["class"], 0) + 1
+        if c["class"] == "good":
+            shapes["good_cases_with_a_module_lacking_post_init"] += 1 if c["nopost"] else 0
+            shapes["good_cases_with_a_module_lacking_destructor"] += 1 if c["nodtor"] else 0
+            for k, v in shape_counts(c).items():
+                shapes[k] = shapes.get(k, 0) + (1 if v else 0)
+        elif c["nopost"] or c["nodtor"]:
+            shapes["refused_cases_with_a_module_lacking_a_hook"] += 1
     ctx.cov["cases_by_class"] = classes
+    ctx.cov["absent_hook_shapes"] = shapes
     for cl in ("good", "cyclic", "unloadable"):
         if not classes.get(cl):
             raise core.MachineryError("no case of class %s generated" % cl)
+    for k, v in shapes.items():
+        if not v:
+            raise core.MachineryError("no case with shape %s generated" % k)
     t_model = time.time() - t0
 
     # ---- 2. real side --------------------------------------------------------------------------
@@ -548,24 +780,7 @@ def run(ctx):
     # a real accepted log, corrupted, must be rejected (choosing WHICH log to corrupt is not a
     # judgement: TLC decides whether the corrupted copies are rejected)
     if not findings:
-        pick = None
-        for l in lines:
-            pis = [e[1] for e in l["log"] if e[0] == "post-init"]
-            if l["status"] != 0 or len(pis) < 3:
-                continue
-            reach, st = set(), [pis[-1]]
-            while st:
-                x = st.pop()
-                for y in l["deps"][x - 1]:
-                    if y not in reach:
-                        reach.add(y)
-                        st.append(y)
-            if pis[0] in reach:          # swapping first and last post-init must break the order
-                pick = l
-                break
-        if pick is None:
-            raise core.MachineryError("no accepted real log whose last post-init depends on its first")
-        must_reject(ctx, pick)
+        must_reject(ctx, lines)
 
     # ---- 4. drift ------------------------------------------------------------------------------
     ndrift = 0
@@ -584,27 +799,44 @@ def run(ctx):
     # ---- evidence ------------------------------------------------------------------------------
     nontrivial = sum(1 for l in lines if l["n"] >= 2 and sum(map(len, l["deps"])) >= 1)
     ctx.cov["distinct_nontrivial"] = nontrivial
-    ctx.cov["rule"] = ("distinct cases (dependency graph with call order, listing, missing module) with at least "
-                       "two modules and at least one module_depends() edge, each run on its own daemon process")
+    ctx.cov["rule"] = ("distinct cases (dependency graph with call order, listing, missing module, hook profile = "
+                       "which modules lack module_post_init / module_destructor) with at least two modules and at "
+                       "least one module_depends() edge, each run on its own daemon process; "
+                       "distinct_nontrivial_absent_hook = those of them in which some module lacks a hook")
+    ctx.cov["distinct_nontrivial_absent_hook"] = sum(1 for l in lines if l["n"] >= 2 and sum(map(len, l["deps"])) >= 1
+                                                     and (l["nopost"] or l["nodtor"]))
     ctx.cov["exhaustive"] = True
     ctx.cov["modules_max"] = max(l["n"] for l in lines)
     ctx.cov["timing_s"] = {"model": round(t_model, 1), "daemons": round(t_real, 1), "validation": round(t_val, 1)}
-    picks = [l for l in lines if l["n"] == 4 and l["status"] == 0][:2] + [l for l in lines if l["status"] != 0 and l["n"] == 3][:2]
+    picks = ([l for l in lines if l["n"] == 4 and l["status"] == 0 and not l["nopost"] and not l["nodtor"]][:1]
+             + [l for l in lines if l["n"] == 4 and l["status"] == 0 and l["nopost"] and l["nodtor"]
+                and sum(map(len, l["deps"])) >= 4][:2]
+             + [l for l in lines if l["status"] != 0 and l["n"] == 3][:2])
     for l in picks:
         ctx.sample({"case": signature(l), "log": " ".join("%s(%s)" % (e, m) if m else e for e, m in l["log"]),
                     "status": l["status"]})
-    ctx.assumptions.append("modules are the stub harness/stubmod.c copied to m1.so..m6.so; only module_depends() "
-                           "declarations (module_antidepends / module_is_backend are outside the contract)")
-    ctx.assumptions.append("'running' = a zero-delay libevent timer armed by the first post-init fired inside "
+    ctx.assumptions.append("modules are the stub harness/stubmod.c, built in four variants (all entry points / no "
+                           "module_post_init / no module_destructor / neither) and copied per module name m1..m6; "
+                           "every module has a module_constructor; only module_depends() declarations "
+                           "(module_antidepends / module_is_backend are outside the contract)")
+    ctx.assumptions.append("'running' = a zero-delay libevent timer armed by the first constructor fired inside "
                            "main()'s event loop (or the process was still alive %ss after start); the daemon is "
                            "then stopped with SIGHUP, its documented clean stop" % int(GRACE))
     ctx.assumptions.append("at most one module without a shared object per case, and that module declares nothing")
+    ctx.assumptions.append("order requirements relate the events of modules that have the entry point, over the "
+                           "transitive closure of the full dependency relation; a module without the entry point "
+                           "contributes no event and owes none")
+    ctx.assumptions.append("hook profiles: every profile for %s; one profile drawn at random (seed %d) for a sample of "
+                           "the other enumerated cases, for 4-module cases and for the random graphs"
+                           % ("the good cases on <=3 modules" if quick else
+                              "every case on <=3 modules without self-dependency or missing module, and for the good "
+                              "cases on <=3 modules with any call order", ctx.seed))
     ctx.note("real daemon: %d starts in %.1fs (%d/s); TLC judged %d logs in %.1fs; %d differ from the model"
              % (len(lines), t_real, ctx.cov["daemon_runs_per_s"], judged, t_val, ndrift))
 
 
 def replay(ctx, body):
-    c = body["replay"]["case"]
+    c = with_defaults(body["replay"]["case"])
     libroot = prepare_libs(ctx)
     res = run_real(ctx, [c], libroot)
     line, _, err = res[0]
